@@ -23,6 +23,10 @@ CLAIMS = {
             "Proof (partial): C05_outcomes_partial, C05_first_bad, C05_extra_exact_partial, C05_no_silent_default_partial, C05_union_outcomes, C05_discr_partial (17 theorems, closed under the global context) for classes with >=1 init field, unions without a None member, discriminators on mapping inputs with hashable tags; the leak sites are _refuted theorems and known findings. Input immutability is checked by the oracle, not proved.",
             "Trusted: Coq kernel + vm_compute; hand-written Errs.v tied by ~1.1k (quick) / 20k (thorough) correspondence cases per run plus the AST shape check of generated code; harness materialiser/encoders; Python semantics of dict.get, isinstance, bare except and except Exception modelled, not verified.",
             "4 C05"),
+    "C11": ("Coq proof (equality of the generated union/Optional/Literal methods with the property's reference on stated domains, exact characterisation of the deviations) over a hand-written model parametric in member codecs; vm_compute correspondence; independent ref_union oracle",
+            "Proof (partial): C11_union_decode_partial (under none_safe and no_shadow), C11_union_deviation_char (nothing else deviates), C11_no_cross_coercion, C11_union_raises_iff, C11_deterministic, C11_nested_union_partial, C11_opt, C11_union_encode_partial (under wire_disjoint), C11_literal theorems; refutation witnesses for the listed deviations (known findings, two pinned by upstream tests). Closed under the global context.",
+            "Trusted: Coq kernel + vm_compute; hand-written UnionModel.v (parametric in member (un)packers and scalar coercions) tied by ~5.7k (quick) / 32k (thorough) correspondence cases per run; py_eq / kind_of models of Python == and exact type tests; harness conforms() and identity-packer classification.",
+            "4 C11"),
 }
 
 ALL = [f"C{i:02d}" for i in range(1, 21)]
